@@ -12,7 +12,7 @@ import sys
 from concurrent.futures import ThreadPoolExecutor
 
 VERIF = "/verif"
-SCRATCH = os.path.expanduser("~/.cache/eko-verif-scratch")
+SCRATCH = os.path.expanduser(f"~/.cache/eko-verif-scratch/{os.getpid()}")   # per process: concurrent runs must not share copies
 
 
 def sh(cmd, **kw):
